@@ -120,3 +120,31 @@ M('C04', 'graft-count', GR, "        count=state.count + 1,\n        direction=b
 TW('C04', 'twin-jnp-mod', DS, "        perform_step = step % statistics_compute_steps == 0\n        init_state = state.statistics", "        perform_step = jnp.equal(jnp.mod(step, statistics_compute_steps), 0)\n        init_state = state.statistics")
 TW('C04', 'twin-count-commuted', DS, "    new_state = ShampooState(count=state.count + 1, stats=new_stats)", "    next_count = 1 + state.count\n    new_state = ShampooState(stats=new_stats, count=next_count)")
 TW('C04', 'twin-warmup-flipped', DS, "    run_shampoo = (step >= start_preconditioning_step).astype(", "    run_shampoo = (start_preconditioning_step <= step).astype(")
+
+# ------------------------------------------------------------------ C02
+M('C02', 'momentum-wrong-buffer', DS, "        state.momentum.to_float() * beta1 + w * shampoo_update_with_wd)", "        state.diagonal_momentum.to_float() * beta1 + w * shampoo_update_with_wd)")
+M('C02', 'wd-before-graft-rescale', DS, "    shampoo_update = precond_grad * multiplier\n", "    shampoo_update = (precond_grad + weight_decay * param) * multiplier\n")
+M('C02', 'nesterov-drops-w', DS, "      nesterov_momentum_update = w * wd_update + beta1 * momentum_update", "      nesterov_momentum_update = wd_update + beta1 * momentum_update")
+M('C02', 'coupled-flags-swapped', DS, "    preconditioner_multiplier = lr if not decoupled_learning_rate else 1.0", "    preconditioner_multiplier = lr if decoupled_learning_rate else 1.0")
+M('C02', 'F17-none-graft-coupled-lr', DS, "      if graft_type == GraftingType.NONE:\n        # Without grafting there is no norm transplant to carry a coupled\n        # learning rate into the preconditioned update.\n        precond_grad = precond_grad * preconditioner_multiplier\n", "")
+M('C02', 'decoupled-wd-lr-swapped', DS, "      wd_lr = 1.0 if decoupled_learning_rate else lr", "      wd_lr = lr if decoupled_learning_rate else 1.0")
+M('C02', 'rmsprop-w2', DS, "      w1 = beta2\n      w2 = jnp.where(beta2 == 1.0, beta2, 1.0 - beta2)\n\n      new_diagonal_statistics", "      w1 = beta2\n      w2 = jnp.where(beta2 == 1.0, 1.0 - beta2, beta2)\n\n      new_diagonal_statistics")
+M('C02', 'adagrad-normalized-missing', DS, "      if graft_type == GraftingType.ADAGRAD_NORMALIZED:\n        scaled_grad = grad / (jnp.linalg.norm(grad) + _EPSILON)", "      if graft_type == GraftingType.RMSPROP_NORMALIZED:\n        scaled_grad = grad / (jnp.linalg.norm(grad) + _EPSILON)")
+M('C02', 'clip-inverted', DS, "        clipping_denom = jnp.maximum(\n            1., scaled_grad_norm / clip_by_scaled_gradient_norm)", "        clipping_denom = jnp.minimum(\n            1., scaled_grad_norm / clip_by_scaled_gradient_norm)")
+M('C02', 'sign-flip', DS, "    transformed_update = -1.0 * momentum_multiplier * nesterov_momentum_update", "    transformed_update = momentum_multiplier * nesterov_momentum_update")
+M('C02', 'mavg-weight', DS, "    w = (1.0 - beta1) if moving_average_for_momentum else 1.0", "    w = (1.0 - beta2) if moving_average_for_momentum else 1.0")
+M('C02', 'lr-schedule-step', DS, "      lr = learning_rate(step)\n\n    preconditioner_multiplier", "      lr = learning_rate(step + 1)\n\n    preconditioner_multiplier")
+M('C02', 'skip-uses-sgd', DS, "      precond_grad = grafting_update\n\n    grafting_update_norm", "      precond_grad = sgd_update\n\n    grafting_update_norm")
+M('C02', 'stored-momentum-nesterov-leak', DS, "    new_momentum = shampoo_update_with_wd_momentum\n", "    new_momentum = nesterov_momentum_update if nesterov else shampoo_update_with_wd_momentum\n")
+M('C02', 'exponent-len', DS, "    num_preconditioners = sum(should_preconditioned_dims)\n    return 2 * num_preconditioners", "    num_preconditioners = len(should_preconditioned_dims)\n    return 2 * num_preconditioners")
+M('C02', 'exponent-override-polarity', DS, "          exponents.append(preconditioner.exponent_for_preconditioner(\n          ) if exponent_override == 0 else exponent_override)", "          exponents.append(preconditioner.exponent_for_preconditioner(\n          ) if exponent_override != 0 else exponent_override)")
+M('C02', 'stats-weights-swapped', DS, "            state.statistics,\n            grad,\n            w1=w1,\n            w2=w2,", "            state.statistics,\n            grad,\n            w1=w2,\n            w2=w1,")
+M('C02', 'gram-weights-swapped', DS, "  return w1 * old_stats + w2 * gram_matrix", "  return w2 * old_stats + w1 * gram_matrix")
+M('C02', 'gram-axes', DS, "  axes = [i for i in range(g.ndim) if i != axis]\n  gram_matrix", "  axes = [i for i in range(g.ndim) if i == axis]\n  gram_matrix")
+M('C02', 'stat-index-not-advanced', DS, "        new_stats.append(from_float(new_stat))\n        index += 1", "        new_stats.append(from_float(new_stat))\n      index += 1")
+M('C02', 'block-contract-axis1', DS, "      g = jnp.tensordot(g, preconditioners[j], axes=[[0], [0]])\n    return g", "      g = jnp.tensordot(g, preconditioners[j], axes=[[0], [1]])\n    return g")
+M('C02', 'block-skip-no-roll', DS, "      if not should_precondition:\n        g = jnp.transpose(g, axes=roll)\n        continue", "      if not should_precondition:\n        continue")
+M('C02', 'transform-touches-statistics', DS, "        _quantize_diagonal_statistics(new_diagonal_statistics),\n        state.statistics,\n        state.preconditioners,\n        _quantize_momentum(new_diagonal_momentum),", "        _quantize_diagonal_statistics(new_diagonal_statistics),\n        [s * beta2 for s in state.statistics],\n        state.preconditioners,\n        _quantize_momentum(new_diagonal_momentum),")
+TW('C02', 'twin-rename-and-reorder', DS, "    w = (1.0 - beta1) if moving_average_for_momentum else 1.0\n\n    shampoo_update_with_wd_momentum = (\n        state.momentum.to_float() * beta1 + w * shampoo_update_with_wd)",
+   "    mom_weight = 1.0 if not moving_average_for_momentum else (1.0 - beta1)\n    w = mom_weight\n\n    shampoo_update_with_wd_momentum = (\n        w * shampoo_update_with_wd + beta1 * state.momentum.to_float())")
+TW('C02', 'twin-multiplier-inline', DS, "    shampoo_update = precond_grad * multiplier\n", "    shampoo_update = multiplier * precond_grad\n")
